@@ -18,7 +18,9 @@ RULE = ("Operand pairs from a boundary-dense lattice (all |x|<=300, +-2^k and ne
         "of 255/256/257, both int16 ends) crossed with itself plus seeded-random pairs, for \\ MOD "
         "AND OR XOR EQV IMP through the values API; all 65536 values for NOT, unary minus and ABS; "
         "expressions through Session.evaluate (integer variables and float-typed operands); "
-        "FOR I%=s TO e STEP d programs near the int16 ends. Non-trivial: an error is expected or "
+        "sequences of operators over the same integer variables / array elements / DEFINT variables "
+        "(results vs. model, operands read back unchanged, the identity a=b*(a\\b)+(a MOD b) as one "
+        "expression); FOR I%=s TO e STEP d programs near the int16 ends. Non-trivial: an error is expected or "
         "the result differs from both operands; distinct = distinct (route, op, a, b).")
 ASSUMPTIONS = [
     "-32768 MOD -1 may return 0 or raise Overflow (statement and GW-BASIC differ; both accepted)",
@@ -38,6 +40,7 @@ KILLS = [
     "values.xor_: computed as OR => binop.XOR.api/eval/float",
     "seeded/C02 (idiv_int negates after storing: -32768\\1 raises Overflow) => binop.\\.api",
     "seeded/C02b (imod sign correction applied to zero remainders) => binop.MOD.api, identity",
+    "seeded/C02e (intdiv divides in place: A%\\B% overwrites the variable A%) => seq.value.identity, seq.operand-changed",
     "survives (equivalent): idiv_int sign test `divisor > 0` instead of `>= 0` - the divisor is never 0 there",
 ]
 
@@ -208,6 +211,8 @@ def check_case(case):
             if r != 0 and (r < 0) != (a < 0):
                 res.fail('mod-sign', '%d MOD %d = %d' % (a, b, r))
         return res
+    if u == 'seq':
+        return check_seq(case, res)
     if u == 'unary':
         a, op = case['a'], case['op']
         s = _sess()
@@ -243,6 +248,69 @@ def check_case(case):
     if u == 'for':
         return check_for(case, res)
     raise ValueError(u)
+
+
+FORMS = {
+    # operand form -> (setup statement, left operand text, right operand text)
+    'scalar': ('A%={a}:B%={b}', 'A%', 'B%'),
+    'array': ('Q%(1)={a}:Q%(2)={b}', 'Q%(1)', 'Q%(2)'),
+    'defint': ('DEFINT X-Y:X={a}:Y={b}', 'X', 'Y'),
+    'same': ('A%={a}', 'A%', 'A%'),
+}
+
+
+def check_seq(case, res):
+    """Several operators applied in turn to the same variables, which are set once.
+
+    Evaluating an expression must leave its operand variables alone: every result is compared with
+    the model on the values first assigned, the operands are read back afterwards, and the
+    statement's identity a = b*(a\\b) + (a MOD b) is evaluated as ONE expression over the variables.
+    """
+    a, b, ops, form = case['a'], case['b'], case['ops'], case['form']
+    if form == 'same':
+        b = a
+    setup, L, R = FORMS[form]
+    s = _sess()
+    o = s.execute(setup.format(a=a, b=b))
+    if o.kind != 'ok' or o.errors:
+        res.fail('seq.setup', '%s -> %r %r' % (setup.format(a=a, b=b), o.kind, o.errors))
+        return res
+    res.nt(True)
+    res.label('seq.' + form)
+    via_stmt = case.get('stmt', False)
+    for op in ops:
+        if op == 'IDENT':
+            if b == 0 or (a == -32768 and b == -1):
+                continue
+            expr = '%s*(%s\\%s)+(%s MOD %s)' % (R, L, R, L, R)
+            exp = {a}
+        else:
+            expr = '%s %s %s' % (L, op, R)
+            exp = expected_bin(op, a, b)
+        if via_stmt:
+            o = s.execute('R%%=0:R%%=%s' % expr)
+            obs = outcome_to_obs(o)
+            if not isinstance(obs, tuple):
+                obs = s.get('R%')
+        else:
+            obs = outcome_to_obs(s.evaluate(expr))
+        if isinstance(obs, tuple) and obs[0] == 'escaped':
+            res.fail('escaped.%s' % obs[1], '%s with %d,%d -> %r' % (expr, a, b, obs))
+            return res
+        if isinstance(obs, float) and obs == int(obs):
+            obs = int(obs)
+        if obs not in exp:
+            res.fail('seq.value.%s' % ('identity' if op == 'IDENT' else op),
+                     '%s [%s] with left=%d right=%d after %r -> %r expected %r'
+                     % (expr, form, a, b, ops[:ops.index(op)], obs, exp))
+            return res
+        la, rb = outcome_to_obs(s.evaluate(L)), outcome_to_obs(s.evaluate(R))
+        if la != a or rb != b:
+            res.fail('seq.operand-changed',
+                     'after evaluating %s [%s] the operands read %r, %r; they were set to %d, %d'
+                     % (expr, form, la, rb, a, b))
+            return res
+    return res
 
 
 def check_for(case, res):
@@ -407,6 +475,11 @@ def strat_expr():
                                        'b': a if sw else b, 'route': 'float'},
                   op, st.one_of(oor, half), st.one_of(small, half, oor), st.booleans()),
         st.builds(lambda a: {'u': 'unary-lit', 'a': a}, st.one_of(oor, half)),
+        st.builds(lambda a, b, ops, form, stmt: {'u': 'seq', 'a': a, 'b': b, 'ops': ops, 'form': form,
+                                                 'stmt': stmt},
+                  operand, operand,
+                  st.lists(st.sampled_from(BINOPS + ['IDENT']), min_size=2, max_size=5, unique=True),
+                  st.sampled_from(sorted(FORMS)), st.booleans()),
     )
 
 
@@ -453,6 +526,10 @@ def units(tier):
 
 
 REGRESSIONS = [
+    {'u': 'seq', 'a': 17, 'b': 5, 'ops': ['\\', 'MOD', 'IDENT', 'AND'], 'form': 'scalar', 'stmt': False},
+    {'u': 'seq', 'a': -32767, 'b': 7, 'ops': ['IDENT', 'MOD', '\\'], 'form': 'array', 'stmt': True},
+    {'u': 'seq', 'a': 300, 'b': -7, 'ops': ['MOD', '\\', 'IDENT'], 'form': 'defint', 'stmt': False},
+    {'u': 'seq', 'a': 9, 'b': 9, 'ops': ['\\', 'XOR', 'IMP'], 'form': 'same', 'stmt': False},
     {'u': 'bin', 'op': '\\', 'a': -32768, 'b': -1, 'route': 'eval'},
     {'u': 'bin', 'op': 'MOD', 'a': -7, 'b': 2, 'route': 'eval'},
     {'u': 'for', 's': 32760, 'e': 32767, 'd': 3, 'split': True},
